@@ -980,6 +980,12 @@ func (g *gen) wfBlock() *block {
 			case 2:
 				if d.v2 && r.Chance(1, 2) {
 					b.renew2 = append(b.renew2, n)
+					if levelMgr && r.Chance(1, 3) {
+						// revised and renewed by two transactions of the same block: one consensus diff carries both
+						nr := v.chainRev + 1
+						b.rev2 = append(b.rev2, [2]uint64{uint64(n), nr})
+						b.rp2 = append(b.rp2, [3]uint64{uint64(n), v.chainRev, nr})
+					}
 				}
 			}
 		}
